@@ -1,5 +1,8 @@
 //! Per-property checks.
 
+pub mod c06;
+pub mod c16;
+
 use crate::seq::{self, Suite};
 use crate::suites;
 use crate::sut::{Cfg, Op, Sut};
@@ -102,6 +105,19 @@ pub fn run_check(prop: &str, tier: &str) -> i32 {
             let s = suites::all_suites(thorough);
             seq_check(prop, tier, s, &["C01"], budget, &mut report);
         }
+        "C06" => c06::run(tier, &mut report),
+        "C16" => {
+            // (1) cache FSM, (2) cache on/off differential over persistent SEQ suites
+            c16::run_fsm(tier, budget * 0.4, &mut report);
+            let mut s = pick(&["focus-v3", "focus-v3-ttl", "disk-v3", "disk-v3-ttl", "edge-v3"], thorough);
+            for suite in s.iter_mut() {
+                let mut off = suite.cfg;
+                off.cache = false;
+                suite.shadow = Some(off);
+                suite.name = format!("{}~nocache", suite.name);
+            }
+            seq_check(prop, tier, s, &["C16", "C01", "C11", "C14"], budget * 0.6, &mut report);
+        }
         "C11" => {
             let s = pick(&["mem-ttl", "disk-v3-ttl", "disk-v1-ttl", "focus-v3-ttl", "focus-v2-ttl", "focus-v3-ttl-nocache", "ts-mem"], thorough);
             seq_check(prop, tier, s, &["C11", "C01", "C14"], budget, &mut report);
@@ -139,8 +155,15 @@ pub fn replay(path: &str) -> i32 {
             }
             code
         }
-        other => {
-            eprintln!("unknown replay engine {other:?}");
+        Some(engine) => {
+            // Component explorers are deterministic and fast: re-run the check and
+            // show the violation again.
+            println!("replay of engine {engine}: re-running the check of {}", v["property"].as_str().unwrap_or("?"));
+            println!("recorded: {}", v["detail"].as_str().unwrap_or(""));
+            run_check(v["property"].as_str().unwrap_or(""), "quick")
+        }
+        None => {
+            eprintln!("no replay engine recorded in {path}");
             2
         }
     }
